@@ -316,3 +316,203 @@ Proof.
   exists (fun _ f => negb (Nat.eqb f 0)), [2]. split; [vm_compute; reflexivity|].
   intros H. specialize (H 0 0 (Nat.lt_0_succ _) (Nat.lt_0_succ _)). discriminate.
 Qed.
+
+(* ================================================================== (b) *)
+
+Section SlatableProofs.
+Variable V : Type.
+Variable is_nan : V -> bool.
+
+Lemma dlookup_app : forall (a b : list (nat * V)) n,
+  dlookup (a ++ b) n = match dlookup b n with Some w => Some w | None => dlookup a n end.
+Proof.
+  induction a as [|[m v] r IH]; intros b n; simpl.
+  - destruct (dlookup b n); reflexivity.
+  - rewrite IH. destruct (dlookup b n); reflexivity.
+Qed.
+
+Lemma dlookup_items_gen : forall (src : group -> nat -> option V) g l n, NoDup l ->
+  dlookup (flat_map (fun n => match src g n with Some v => [(n, v)] | None => [] end) l) n
+  = if existsb (Nat.eqb n) l then src g n else None.
+Proof.
+  intros src g l n. induction l as [|m r IH]; intros Hnd; simpl; [reflexivity|].
+  inversion Hnd as [|? ? Hnotin Hr]; subst. specialize (IH Hr).
+  destruct (src g m) eqn:Em; simpl.
+  - rewrite IH. destruct (Nat.eqb n m) eqn:E.
+    + apply Nat.eqb_eq in E. subst m. simpl.
+      assert (Hx : existsb (Nat.eqb n) r = false).
+      { destruct (existsb (Nat.eqb n) r) eqn:X; [|reflexivity]. apply existsb_exists in X.
+        destruct X as [x [Hx1 Hx2]]. apply Nat.eqb_eq in Hx2. subst x. contradiction. }
+      rewrite Hx. rewrite Nat.eqb_refl. symmetry. exact Em.
+    + simpl. destruct (existsb (Nat.eqb n) r).
+      * destruct (src g n); [reflexivity|]. rewrite Nat.eqb_sym, E. reflexivity.
+      * rewrite Nat.eqb_sym, E. reflexivity.
+  - rewrite IH. destruct (Nat.eqb n m) eqn:E; simpl; [|reflexivity].
+    apply Nat.eqb_eq in E. subst m. rewrite Em. destruct (existsb (Nat.eqb n) r); reflexivity.
+Qed.
+
+Lemma dlookup_group_items : forall (src : group -> nat -> option V) nn g n, n < nn ->
+  dlookup (group_items src nn g) n = src g n.
+Proof.
+  intros src nn g n H. unfold group_items. rewrite dlookup_items_gen by apply seq_NoDup.
+  assert (E : existsb (Nat.eqb n) (seq 0 nn) = true).
+  { apply existsb_exists. exists n. split; [apply in_seq; lia | apply Nat.eqb_refl]. }
+  rewrite E. reflexivity.
+Qed.
+
+Section OneName.
+Variable src : group -> nat -> option V.
+Variable nn : nat.
+Variable flags : group -> bool.
+Variable g : group.
+Variable n : nat.
+Variable v : V.
+Hypothesis Hn : n < nn.
+Hypothesis Hsrc : src g n = Some v.
+Hypothesis Honly : forall g', g' <> g -> src g' n = None.     (* the name belongs to one group *)
+
+Lemma group_eqb_spec : forall a b, group_eqb a b = true <-> a = b.
+Proof. destruct a, b; simpl; split; intros; congruence. Qed.
+
+Lemma items_lookup : forall b : sl_block,
+  dlookup (group_items src nn (fst b)) n = if group_eqb (fst b) g then Some v else None.
+Proof.
+  intros b. rewrite dlookup_group_items by exact Hn.
+  destruct (group_eqb (fst b) g) eqn:E.
+  - apply group_eqb_spec in E. rewrite E. exact Hsrc.
+  - apply Honly. intros C. apply group_eqb_spec in C. congruence.
+Qed.
+
+Lemma fold_blocks_lookup : forall blocks fo,
+  let r := fold_left (run_block src nn flags) blocks fo in
+  dlookup (fst r) n = (if existsb (fun b => group_eqb (fst b) g && flags (snd b)) blocks
+                       then Some v else dlookup (fst fo) n)
+  /\ dlookup (snd r) n = (if existsb (fun b => group_eqb (fst b) g && negb (flags (snd b))) blocks
+                          then Some v else dlookup (snd fo) n).
+Proof.
+  induction blocks as [|b r IH]; intros fo; simpl; [split; reflexivity|].
+  destruct (IH (run_block src nn flags fo b)) as [IH1 IH2]. rewrite IH1, IH2. clear IH IH1 IH2.
+  unfold run_block. destruct (flags (snd b)); simpl; rewrite ?andb_true_r, ?andb_false_r; simpl.
+  - rewrite dlookup_app, items_lookup. split.
+    + destruct (group_eqb (fst b) g); simpl; [|reflexivity].
+      match goal with |- context [existsb ?ff r] => destruct (existsb ff r) end; reflexivity.
+    + reflexivity.
+  - rewrite dlookup_app, items_lookup. split.
+    + reflexivity.
+    + destruct (group_eqb (fst b) g); simpl; [|reflexivity].
+      match goal with |- context [existsb ?ff r] => destruct (existsb ff r) end; reflexivity.
+Qed.
+
+(* every group is filed by its own flag, and is filed at all *)
+Definition blocks_sound (blocks : list sl_block) : bool :=
+  forallb (fun b => group_eqb (fst b) (snd b)) blocks
+  && forallb (fun h => existsb (fun b => group_eqb (fst b) h) blocks) [GParameters; GShocks; GStds].
+
+Lemma sound_exists : forall blocks (want : bool), blocks_sound blocks = true ->
+  existsb (fun b => group_eqb (fst b) g && (if want then flags (snd b) else negb (flags (snd b)))) blocks
+  = (if want then flags g else negb (flags g)).
+Proof.
+  intros blocks want H. unfold blocks_sound in H. apply andb_prop in H. destruct H as [H1 H2].
+  assert (Hex : existsb (fun b => group_eqb (fst b) g) blocks = true).
+  { rewrite forallb_forall in H2. apply H2. destruct g; simpl; auto. }
+  rewrite forallb_forall in H1.
+  destruct (existsb (fun b => group_eqb (fst b) g && (if want then flags (snd b) else negb (flags (snd b)))) blocks) eqn:E.
+  - apply existsb_exists in E. destruct E as [b [Hb E]]. apply andb_prop in E. destruct E as [E1 E2].
+    apply group_eqb_spec in E1. specialize (H1 b Hb). apply group_eqb_spec in H1. rewrite <- H1, E1 in E2.
+    symmetry. exact E2.
+  - apply existsb_exists in Hex. destruct Hex as [b [Hb Eb]].
+    assert (E' := E). rewrite <- not_true_iff_false in E'.
+    destruct (if want then flags g else negb (flags g)) eqn:W; [|reflexivity].
+    exfalso. apply E'. apply existsb_exists. exists b. split; [exact Hb|]. rewrite Eb. simpl.
+    specialize (H1 b Hb). apply group_eqb_spec in H1. apply group_eqb_spec in Eb. rewrite <- H1, Eb. exact W.
+Qed.
+
+Lemma assemble_lookup : forall blocks, blocks_sound blocks = true ->
+  let fo := assemble_with blocks src nn flags in
+  dlookup (fst fo) n = (if flags g then Some v else None)
+  /\ dlookup (snd fo) n = (if flags g then None else Some v).
+Proof.
+  intros blocks H. unfold assemble_with. destruct (fold_blocks_lookup blocks ([], [])) as [A B].
+  cbv zeta in *. rewrite A, B. simpl.
+  rewrite (sound_exists blocks true H). rewrite (sound_exists blocks false H).
+  destruct (flags g); split; reflexivity.
+Qed.
+
+(* the row of the dataslate: from data -> data with the model's value where the databox has nothing (NaN);
+   not from data -> the model's value whatever the databox holds *)
+Theorem row_by_flag_general : forall blocks row, blocks_sound blocks = true ->
+  slate_row_with is_nan [PFallbacks; POverwrites] (assemble_with blocks src nn flags) n row
+  = if flags g then map (fun x => if is_nan x then v else x) row else map (fun _ => v) row.
+Proof.
+  intros blocks row H. destruct (assemble_lookup blocks H) as [A B]. cbv zeta in *.
+  unfold slate_row_with. simpl. rewrite A, B. destruct (flags g); reflexivity.
+Qed.
+
+End OneName.
+End SlatableProofs.
+
+(* ------------------------------------------------------------------ the current source *)
+
+Lemma slatable_blocks_sound : blocks_sound slatable_blocks = true.
+Proof. vm_compute. reflexivity. Qed.
+
+Lemma variant_post_order : variant_post = [PFallbacks; POverwrites].
+Proof. reflexivity. Qed.
+
+Lemma sim_flag_wiring_id : forall g, sim_flag_wiring g = g.
+Proof. destruct g; reflexivity. Qed.
+
+(* Simultaneous.simulate: the dataslate row of a name of group g (parameter / shock / std) that the model has *)
+Theorem simulate_row_by_flag : forall (V : Type) (is_nan : V -> bool) (src : group -> nat -> option V) nn sim_flags g n v row,
+  n < nn -> src g n = Some v -> (forall g', g' <> g -> src g' n = None) ->
+  simulate_row is_nan src nn sim_flags n row
+  = if sim_flags g then map (fun x => if is_nan x then v else x) row else map (fun _ => v) row.
+Proof.
+  intros V is_nan src nn sim_flags g n v row Hn Hs Ho. unfold simulate_row, slate_row, assemble.
+  rewrite variant_post_order.
+  rewrite (row_by_flag_general V is_nan src nn (slatable_flags sim_flags) g n v Hn Hs Ho slatable_blocks row
+             slatable_blocks_sound).
+  unfold slatable_flags. rewrite sim_flag_wiring_id. reflexivity.
+Qed.
+
+(* with the defaults of simulate() (parameters_from_data=False) a parameter row carries the model's value in every
+   column, whatever the input databox holds under that name *)
+Theorem parameter_rows_ignore_databox : forall (V : Type) (is_nan : V -> bool) (src : group -> nat -> option V) nn sim_flags n v row row',
+  n < nn -> src GParameters n = Some v -> (forall g', g' <> GParameters -> src g' n = None) ->
+  sim_flags GParameters = false -> length row = length row' ->
+  simulate_row is_nan src nn sim_flags n row = simulate_row is_nan src nn sim_flags n row'
+  /\ (forall c, c < length row -> nth_error (simulate_row is_nan src nn sim_flags n row) c = Some v).
+Proof.
+  intros V is_nan src nn sim_flags n v row row' Hn Hs Ho Hf Hl.
+  rewrite !(simulate_row_by_flag V is_nan src nn sim_flags GParameters n v) by assumption. rewrite Hf.
+  split.
+  - revert row' Hl. induction row as [|x r IH]; destruct row' as [|y t]; simpl; intros Hl; try discriminate; [reflexivity|].
+    f_equal. apply IH. congruence.
+  - intros c Hc. rewrite nth_error_map. destruct (nth_error row c) eqn:E; [reflexivity|].
+    apply nth_error_None in E. lia.
+Qed.
+
+Lemma default_parameters_not_from_data : sim_default_from_data GParameters = false
+  /\ sim_default_from_data GShocks = true /\ sim_default_from_data GStds = true.
+Proof. vm_compute. repeat split. Qed.
+
+(* non-vacuity: two parameters (names 0, 1), one shock (name 2), one std (name 3); the databox carries a stale value
+   9 under parameter 0 and nothing (NaN, here 0) for the shock in the second column *)
+Example slatable_example :
+  let src := fun (g : group) (n : nat) =>
+     match g, n with GParameters, 0 => Some 5 | GParameters, 1 => Some 6 | GShocks, 2 => Some 100 | GStds, 3 => Some 7
+                   | _, _ => None end in
+  let isn := Nat.eqb 0 in
+  simulate_row isn src 4 sim_default_from_data 0 [9; 9; 9] = [5; 5; 5]
+  /\ simulate_row isn src 4 sim_default_from_data 2 [3; 0; 4] = [3; 100; 4]
+  /\ simulate_row isn src 4 (fun _ => true) 0 [9; 0; 9] = [9; 5; 9]
+  /\ simulate_row isn src 4 (fun _ => false) 2 [3; 0; 4] = [100; 100; 100].
+Proof. vm_compute. repeat split. Qed.
+
+(* the shape with the parameters filed under the stds flag is refuted: the databox wins over the model's parameter *)
+Example parameters_under_stds_flag_refuted :
+  let src := fun (g : group) (n : nat) => match g, n with GParameters, 0 => Some 5 | _, _ => None end in
+  slate_row_with (Nat.eqb 0) variant_post
+    (assemble_with [(GParameters, GStds); (GShocks, GShocks); (GStds, GStds)] src 1 sim_default_from_data) 0 [9; 9]
+  = [9; 9].
+Proof. vm_compute. reflexivity. Qed.
